@@ -89,6 +89,30 @@ def _geom_batch(task):
                 d = abs(a - b); d = min(d, 2 * np.pi - d)
                 if d > 3e-4:
                     out.append((k, what + ": reversing the atom order changes the dihedral")); continue
+    # the same atoms embedded in a larger system (filler atoms elsewhere) and a longer index list, at a varying position and with
+    # different index dtypes: the value must not depend on where the tuple sits in the list or on the number of atoms
+    nfill = 3 + seed % 5
+    order = rs.permutation(na + nfill)
+    slots = [int(x) for x in order[:na]]
+    big = np.zeros((n, na + nfill, 3), dtype=np.float32)
+    big[:, slots] = t.xyz
+    big[:, [int(x) for x in order[na:]]] = t.xyz[:, :1] + rs.randint(2, 7, size=(1, nfill, 3)).astype(np.float32) * 0.29
+    tb = md.Trajectory(big, _top(na + nfill))
+    if cell is not None:
+        tb.unitcell_vectors = (cm * G).astype(np.float32)       # (not t.unitcell_vectors: a second lengths/angles round trip perturbs the cell)
+    lst = [[int(v) for v in rs.choice(na + nfill, size=na, replace=False)] for _ in range(23)]
+    pos = seed % 23
+    lst[pos] = slots
+    ref = fn(t, idx[:1], periodic=cell is not None)[:, 0]
+    for arr in (np.array(lst, dtype=np.int64), np.array(lst, dtype=np.int32), lst):
+        try:
+            got = fn(tb, arr, periodic=cell is not None)[:, pos]
+        except Exception as e:  # noqa
+            out.append((0, "%s raised %s on an embedded index list" % (fn.__name__, type(e).__name__))); break
+        d = np.abs(got - ref); d = np.minimum(d, 2 * np.pi - d)
+        for k in np.where(d > 2e-5)[0][:3]:
+            if na == 3 or abs(abs(ref[k]) - np.pi) > 1e-3:
+                out.append((int(k), "%s: the value of a tuple depends on its position in the index list / the number of atoms" % fn.__name__))
     if cell is not None and heavy:
         # periodic=False on the unshifted geometry must give the same numbers as periodic=True on the scattered one
         t0 = md.Trajectory((np.array([r["p"] for r in recs], dtype=float) * G).astype(np.float32), _top(na))
